@@ -84,14 +84,9 @@ def trie_fn(T, LT, name, params, rtype, rcoq, decl=None, strip=None):
     T.sigs[("tstore", name)] = {"kind": "tfn", "params": params, "rtype": rtype, "coq": coq}
 
 
-def main(out):
-    T, _, TN, LT = GT.build()
-    T.out = []
+def register(T, TN, LT):
+    """translate everything of GenTrieW.v into T.out and register the signatures (used by gen_tried.py as well)"""
     T.join_calls = True
-    L = ["(* GENERATED by harness/gen_triew.py from %s/traph/lru_trie/{lru_trie,node,walk_history}.py -- do not edit *)" % REPO,
-         "From Coq Require Import List NArith Bool Arith.", "Import ListNotations.",
-         "From Traph Require Import Bytes Consts Layout Codec GenStorage GenNode GenTrie.",
-         "From Traph Require GenHelpers2.", "", PREAMBLE]
     pn = os.path.join(REPO, "traph", "lru_trie", "node.py")
     ph = os.path.join(REPO, "traph", "lru_trie", "walk_history.py")
     tn, th = (ast.parse(open(p).read(), p) for p in (pn, ph))
@@ -140,6 +135,16 @@ def main(out):
             "pair:tnode:hist", "(py_node * py_hist)", decl={"child": "tnode"})
     trie_fn(T, LT, "add_page", [("lru", "bytes", None), ("crawled", "bool", "false")], "pair:tnode:hist", "(py_node * py_hist)")
 
+
+
+def main(out):
+    T, _, TN, LT = GT.build()
+    T.out = []
+    L = ["(* GENERATED by harness/gen_triew.py from %s/traph/lru_trie/{lru_trie,node,walk_history}.py -- do not edit *)" % REPO,
+         "From Coq Require Import List NArith Bool Arith.", "Import ListNotations.",
+         "From Traph Require Import Bytes Consts Layout Codec GenStorage GenNode GenTrie.",
+         "From Traph Require GenHelpers2.", "", PREAMBLE]
+    register(T, TN, LT)
     text = "\n".join(L + T.out) + "\n"
     old = open(out).read() if os.path.exists(out) else None
     if old != text:
